@@ -1,7 +1,140 @@
-(* PropC03.v — C03: persisted operations survive any later crash, under every policy (event-trace level). chrono = the I/O trace in chronological order; file_synced name evs = every write to that file is followed by a sync_data of it; power_filter = the power-loss model of the drivers (a write survives only if its file was synced afterwards).
+(* PropC03.v — C03: persisted operations survive any later crash, under every policy. END TO END for the process-crash model (C03_process_crash, C03_persisted_survives); event-trace level for the power-loss model. chrono = the I/O trace in chronological order; file_synced name evs = every write to that file is followed by a sync_data of it; power_filter = the power-loss model of the drivers (a write survives only if its file was synced afterwards).
    Statements only; each theorem is closed by `exact <lemma>`; proofs live in the imported files. *)
 From Coq Require Import Lia NArith List.
-From MRL Require Import Bytes Params Names Frame Record Mem Rolling Log Driver Hist WriterProofs PersistProofs PolicyProofs.
+From MRL Require Import Bytes Params Names Frame Record Mem Spec Rolling Log Driver Hist SpecRefine WriterProofs PersistProofs PolicyProofs RestartInv RestartStep TornProofs PersistSurvive PersistShape PersistImage.
+
+(* END TO END, process crash, EVERY policy: from a persist point (a state satisfying the global invariant with nothing buffered) followed by any further history under any policy (DoNothing, OnDelay with any ticks, Always), for every crash image of what had reached the OS (cut before any event or inside any write; buffered bytes lost): open succeeds and yields the abstract state after SOME prefix of the further history - never older than the persist point, never an inconsistent mixture - with roll-overs, multi-file entries, garbage collection and a crash among the unlinks included *)
+Theorem C03_process_crash :
+    forall P : params,
+    7 < BS P ->
+    BS P <= 65542 ->
+    1 <= NB P ->
+    (forall (t : byte) (p : bytes), crcf P t p < 2 ^ 32) ->
+    L_GC P = false ->
+    L_IO P = false ->
+    L_SHORT P = false ->
+    no_zero_collision P ->
+    forall (st0 : state) (G0 : ghost),
+    Inv P st0 G0 ->
+    w_pending (s_wr st0) = [] ->
+    forall h : list (op * bool),
+    GhostLog.hist_wf P st0 h ->
+    RestartWrite.stream_bound P G0 (map snd (GhostLog.run_log P st0 h)) ->
+    CB P st0 h ->
+    forall evs : list event,
+    c_ev (w_ctx (s_wr (fst (run P st0 h)))) = rev evs ++ c_ev (w_ctx (s_wr st0)) ->
+    forall (cut k : N) (pol : policy) (hint : list bytes),
+    exists (m : nat) (st_r : state),
+    (m <= length h)%nat /\
+    open P (fold_left apply_event (crash_events evs cut k) (c_fs (w_ctx (s_wr st0)))) None pol hint =
+    OpenOk st_r /\
+    (forall q : bytes,
+    s_get (abs_qs (s_qs st_r)) q = s_get (abs_qs (s_qs (fst (run P st0 (firstn m h))))) q).
+Proof. exact C03_process_crash. Qed.
+Print Assumptions C03_process_crash.
+
+(* the property's wording: if call i of the history itself left nothing buffered (it persisted) and the crash happens after it returned, the recovered state is at least as recent as call i: once persisted, no later crash can undo it or anything before it *)
+Theorem C03_persisted_survives :
+    forall P : params,
+    7 < BS P ->
+    BS P <= 65542 ->
+    1 <= NB P ->
+    (forall (t : byte) (p : bytes), crcf P t p < 2 ^ 32) ->
+    L_GC P = false ->
+    L_IO P = false ->
+    L_SHORT P = false ->
+    no_zero_collision P ->
+    forall (st0 : state) (G0 : ghost) (h : list (op * bool)) (evs : list event)
+    (i : nat) (evs_i : list event),
+    Inv P st0 G0 ->
+    w_pending (s_wr st0) = [] ->
+    GhostLog.hist_wf P st0 h ->
+    RestartWrite.stream_bound P G0 (map snd (GhostLog.run_log P st0 h)) ->
+    CB P st0 h ->
+    c_ev (w_ctx (s_wr (fst (run P st0 h)))) = rev evs ++ c_ev (w_ctx (s_wr st0)) ->
+    (i <= length h)%nat ->
+    let st_i := fst (run P st0 (firstn i h)) in
+    w_pending (s_wr st_i) = [] ->
+    c_ev (w_ctx (s_wr st_i)) = rev evs_i ++ c_ev (w_ctx (s_wr st0)) ->
+    forall (cut k : N) (pol : policy) (hint : list bytes),
+    lenN evs_i <= cut ->
+    exists (m : nat) (st_r : state),
+    (i <= m)%nat /\
+    (m <= length h)%nat /\
+    open P (fold_left apply_event (crash_events evs cut k) (c_fs (w_ctx (s_wr st0)))) None pol hint =
+    OpenOk st_r /\
+    (forall q : bytes,
+    s_get (abs_qs (s_qs st_r)) q = s_get (abs_qs (s_qs (fst (run P st0 (firstn m h))))) q).
+Proof. exact C03_persisted_survives. Qed.
+Print Assumptions C03_persisted_survives.
+
+(* the I/O trace of any history under any policy with buffering: writes carry consecutive bytes of what the calls log; unlinks come only directly after flush + sync_data + sync_dir of everything written so far *)
+Theorem C03_trace_shape :
+    forall P : params,
+    7 < BS P ->
+    BS P <= 65542 ->
+    1 <= NB P ->
+    (forall (t : byte) (p : bytes), crcf P t p < 2 ^ 32) ->
+    L_GC P = false ->
+    forall (st0 : state) (G0 : ghost) (h : list (op * bool)) (evs : list event),
+    Inv P st0 G0 ->
+    w_pending (s_wr st0) = [] ->
+    GhostLog.hist_wf P st0 h ->
+    RestartWrite.stream_bound P G0 (map snd (GhostLog.run_log P st0 h)) ->
+    c_ev (w_ctx (s_wr (fst (run P st0 h)))) = rev evs ++ c_ev (w_ctx (s_wr st0)) ->
+    let w0 := s_wr st0 in
+    let w := s_wr (fst (run P st0 h)) in
+    let NEWALL :=
+    ResyncProofs.encs_of P (PersistGc.wabs P w0) (map entry_ser (map snd (GhostLog.run_log P st0 h))) in
+    exists Dos : bytes,
+    btrace P (FileStream.wlo w0) (w_file w0) (w_off w0) evs Dos (FileStream.wlo w) (w_file w) (os_pos w) /\
+    Dos ++ w_pending w = NEWALL /\ CrashTrace.ev_data evs = Dos.
+Proof. exact C03_trace_shape. Qed.
+Print Assumptions C03_trace_shape.
+
+(* every crash image: contiguous files, only the last created one possibly empty, stream = old stream + byte prefix of everything written since the persist point + zeros; files unlinked by call g imply all bytes of calls 1..g are in the image *)
+Theorem C03_image_shape :
+    forall P : params,
+    7 < BS P ->
+    BS P <= 65542 ->
+    1 <= NB P ->
+    (forall (t : byte) (p : bytes), crcf P t p < 2 ^ 32) ->
+    L_GC P = false ->
+    forall (st0 : state) (G0 : ghost) (H : list (op * bool)) (evs : list event),
+    Inv P st0 G0 ->
+    w_pending (s_wr st0) = [] ->
+    GhostLog.hist_wf P st0 H ->
+    RestartWrite.stream_bound P G0 (map snd (GhostLog.run_log P st0 H)) ->
+    c_ev (w_ctx (s_wr (fst (run P st0 H)))) = rev evs ++ c_ev (w_ctx (s_wr st0)) ->
+    forall cut k : N,
+    let w0 := s_wr st0 in
+    let img := fold_left apply_event (crash_events evs cut k) (c_fs (w_ctx w0)) in
+    let base := gh_base G0 in
+    let T0 := gh_T P G0 in
+    let c0 := (FileStream.wlo w0 - base) * FILE_BYTES P + FileStream.wpos P w0 in
+    let NEW :=
+    fun hh : list (op * bool) =>
+    ResyncProofs.encs_of P c0 (map entry_ser (map snd (GhostLog.run_log P st0 hh))) in
+    exists (lo' hi : N) (short : bool) (z j : N) (g : nat),
+    FileStream.wlo w0 <= lo' /\
+    lo' <= hi /\
+    hi <= U64_MAX /\
+    GcProofs.nodup_keys img /\
+    GcProofs.dir_of img (CrashTrace.nfiles lo' hi) /\
+    list_wal_numbers img = CrashTrace.nfiles lo' hi /\
+    (forall n : N,
+    lo' <= n <= hi ->
+    exists b : bytes,
+    fs_get img (filename n) = Some (FFile b) /\
+    lenN b = (if short && (n =? hi) then 0 else FILE_BYTES P)) /\
+    j <= lenN (NEW H) /\
+    FileStream.stream_of (CrashTrace.zext P img hi) (CrashTrace.nfiles lo' hi) =
+    dropN ((lo' - base) * FILE_BYTES P) (T0 ++ zerosN (c0 - lenN T0) ++ takeN j (NEW H) ++ zerosN z) /\
+    c0 + j + z = (hi + 1 - base) * FILE_BYTES P /\
+    (g <= length H)%nat /\
+    lenN (NEW (firstn g H)) <= j /\ lo' <= FileStream.wlo (s_wr (fst (run P st0 (firstn g H)))).
+Proof. exact C03_image_shape. Qed.
+Print Assumptions C03_image_shape.
 
 (* every call that persists with FlushAndFsync (create_queue / delete_queue under any policy, append / truncate under Always(FlushAndFsync), explicit persist) leaves every write ever made synced and nothing buffered *)
 Theorem C03_fsync_durable :
